@@ -568,7 +568,9 @@ where
                         if self.options.transform_on
                             && (attr_name == "on" || attr_name == "nativeOn")
                         {
-                            merge_args.push(Expr::Call(CallExpr {
+                            // the transformed listeners take part in the props like a spread
+                            // written at this position
+                            let transformed = Expr::Call(CallExpr {
                                 span: DUMMY_SP,
                                 callee: Callee::Expr(Box::new(Expr::Ident(
                                     self.transform_on_helper
@@ -580,7 +582,21 @@ where
                                     expr: attr_value,
                                 }],
                                 ..Default::default()
-                            }));
+                            });
+                            if self.options.merge_props {
+                                if !props.is_empty() {
+                                    merge_args.push(Expr::Object(ObjectLit {
+                                        span: DUMMY_SP,
+                                        props: util::dedupe_props(mem::take(&mut props)),
+                                    }));
+                                }
+                                merge_args.push(transformed);
+                            } else {
+                                props.push(PropOrSpread::Spread(SpreadElement {
+                                    dot3_token: DUMMY_SP,
+                                    expr: Box::new(transformed),
+                                }));
+                            }
                         } else {
                             props.push(PropOrSpread::Prop(Box::new(Prop::KeyValue(
                                 KeyValueProp {
